@@ -623,7 +623,8 @@ pub fn compress_kmers_no_exts<K: Kmer, D: Clone + Debug, S: CompressionSpec<D>>(
 ) -> BaseGraph<K, D> {
     let kmer_set: std::collections::HashSet<_> = kmer_exts.iter().map(|(k, _)| k).collect();
 
-    let can = |k: K| k.min_rc();
+    // neighbours are looked up the way the keys are stored: as given when stranded, by canonical form otherwise
+    let can = |k: K| if stranded { k } else { k.min_rc() };
 
     let mut keys = Vec::with_capacity(kmer_exts.len());
     let mut exts = Vec::with_capacity(kmer_exts.len());
